@@ -761,7 +761,7 @@ func bigBranchSized(r *RNG, size, nst int) *tak.Position {
 
 func genC04ab(c *Ctx) {
 	r := c.R
-	n := c.Scale(900, 90000)
+	n := c.Scale(900, 60000)
 	kinds := []string{"gm", "gm", "an", "aa"}
 	for k := 0; k < n; k++ {
 		size := 3 + r.Intn(6)
@@ -862,7 +862,7 @@ func genC04ab(c *Ctx) {
 	// related positions on one engine with a table: the positions of one game line visited in take-back order (P+m, then
 	// P) and forwards, depth 3..5: table entries and PV hints of a sibling line meet the next search; every reported
 	// line must replay (non-decisive values) - a PV assembled from a table hit plus the tail of another line does not
-	n = c.Scale(3000, 120000)
+	n = c.Scale(3000, 80000)
 	for k := 0; k < n; k++ {
 		size := 3 + r.Intn(3)
 		s := latticeCfg(c, size)
